@@ -35,12 +35,12 @@ func init() {
 		ID: "C16",
 		Rule: "Crash/hang monitor around every textual entry point and every source/decoder/mangler on types made of user-defined named leaves. " +
 			"Text part: seeded byte strings - uniform random, and grammar-aware mutations of valid inputs with a dictionary (quotes, backquotes, backslashes, commas, colons, NUL, control bytes, invalid UTF-8, 400-digit numbers, deep nesting) - are fed to parse.String for 60 target types, every parse.* entry point, the flag helpers' Set, all eight case decoders and six encoders, environment values and flag/pflag arguments of fixed rich types, and as file content to the four decoders; every call must return (value of the requested type | error): a recovered panic, a fatal error of the process or a call that makes no progress (heartbeat watchdog + two goroutine dumps in a dials frame) is a violation. " +
-			"Type part: seeded reflect.StructOf types with distinct flattened leaf names in which every leaf is a user-defined named scalar/slice/map type, user-declared pointer or embedded struct go through env, both flag sources, the four decoders (well-formed documents) and every shipped mangler chain; no panic, and a successful result must be accepted by the real compose. " +
+			"Type part: seeded reflect.StructOf types with distinct flattened leaf names in which every leaf is a user-defined named scalar/slice/map type, user-declared pointer or embedded struct go through env, both flag sources, the four decoders (well-formed documents) and every shipped mangler chain; no panic, and a successful result must be accepted by the real compose; every fourth type case is followed by one whose type also has user-declared pointers to pointers to scalars (**int, **Level, ***int, ...) and every fourth by one with user-declared pointers to slices and maps (*[]string, *map[string]string, ...), each given well-formed text (violation keys of these carry +ptr-to-ptr-leaves / +ptr-to-collection-leaves). " +
 			"distinct_nontrivial = distinct (target, input) pairs for the text part (hashed) plus distinct (family, type-shape) signatures for the type part.",
 		Assumptions: []string{"inputs containing NUL cannot be placed in the process environment (os.Setenv rejects them); they reach the env chain through parse.String instead"},
 		MinDistinct: map[string]int{"quick": 250000, "thorough": 1200000},
 		MinCounters: map[string]map[string]int64{
-			"quick":    {"text_calls_returned": 1000000, "type_cases_returned": 4000, "success_results_type_checked": 100000},
+			"quick":    {"text_calls_returned": 1000000, "type_cases_returned": 4000, "success_results_type_checked": 100000, "env_values_for_top_level_ptr-to-ptr_leaves": 500},
 			"thorough": {"text_calls_returned": 15000000},
 		},
 		Plan: func(tier string) fw.Plan {
@@ -415,7 +415,18 @@ func runC16(w *fw.Worker) {
 	w.Cases(func(i int, r *fw.Rand) {
 		cw.beat.Store(int64(i))
 		if i%7 == 6 {
-			c16Types(w, i, r, cw)
+			c16Types(w, i, r, cw, "")
+			// every fourth type case is followed by an episode of its own (own PRNG stream) on a type that also has
+			// user-declared pointers to pointers (**int, **Level, ...), each given well-formed text
+			switch (i / 7) % 4 {
+			case 0:
+				c16Types(w, i, fw.NewRand(fw.Mix(w.CaseSeed(i), 0x2b7e1516)), cw, "ptr-to-ptr")
+			case 2:
+				// ... and every fourth by one with user-declared pointers to slices and maps (*[]string, *map[string]string)
+				if c16PtrToCollectionEpisodes {
+					c16Types(w, i, fw.NewRand(fw.Mix(w.CaseSeed(i), 0x28aed2a6)), cw, "ptr-to-collection")
+				}
+			}
 			return
 		}
 		in := c16Input(r)
@@ -475,10 +486,117 @@ func namedLeaves() []*gen.Leaf {
 	return out
 }
 
+// c16PtrPtrLeaves: user-declared pointers to pointers to scalars (pointerification leaves every pointer to a
+// non-struct alone, so these reach the sources as they are), with the text of the innermost value.
+var c16PtrPtrLeaves = func() []*gen.Leaf {
+	innermost := func(v reflect.Value) reflect.Value {
+		for v.Kind() == reflect.Ptr {
+			v = v.Elem()
+		}
+		return v
+	}
+	mk := func(name string, zero any, val func(r *fw.Rand, uniq int) any, text func(v reflect.Value) string) *gen.Leaf {
+		t := reflect.TypeOf(zero)
+		return &gen.Leaf{Name: name, Type: t, Caps: gen.CapRef,
+			Gen: func(r *fw.Rand, uniq int) reflect.Value {
+				// wrap the value in as many pointers as the type has
+				depth := 0
+				for e := t; e.Kind() == reflect.Ptr; e = e.Elem() {
+					depth++
+				}
+				v := reflect.ValueOf(val(r, uniq))
+				for ; depth > 0; depth-- {
+					p := reflect.New(v.Type())
+					p.Elem().Set(v)
+					v = p
+				}
+				return v
+			},
+			Text: func(v reflect.Value) string { return text(innermost(v)) }}
+	}
+	itoa := func(v reflect.Value) string { return fmt.Sprint(v.Int()) }
+	return []*gen.Leaf{
+		mk("**int", (**int)(nil), func(_ *fw.Rand, u int) any { return u }, itoa),
+		mk("***int", (***int)(nil), func(_ *fw.Rand, u int) any { return -u }, itoa),
+		mk("**Level", (**gen.Level)(nil), func(_ *fw.Rand, u int) any { return gen.Level(u%250 + 1) }, func(v reflect.Value) string { return fmt.Sprint(v.Uint()) }),
+		mk("**Mode", (**gen.Mode)(nil), func(_ *fw.Rand, u int) any { return gen.Mode(u) }, itoa),
+		mk("**string", (**string)(nil), func(_ *fw.Rand, u int) any { return fmt.Sprintf("s%d", u) }, func(v reflect.Value) string { return v.String() }),
+		mk("**bool", (**bool)(nil), func(_ *fw.Rand, u int) any { return u%2 == 0 }, func(v reflect.Value) string { return fmt.Sprint(v.Bool()) }),
+		mk("**float64", (**float64)(nil), func(_ *fw.Rand, u int) any { return float64(u) + 0.5 }, func(v reflect.Value) string { return fmt.Sprint(v.Float()) }),
+	}
+}()
+
+// c16PtrCollLeaves: user-declared pointers to slices and maps (left alone by pointerification as well), with the text
+// of the collection.
+var c16PtrCollLeaves = func() []*gen.Leaf {
+	mk := func(name string, base *gen.Leaf) *gen.Leaf {
+		return &gen.Leaf{Name: name, Type: reflect.PtrTo(base.Type), Caps: gen.CapRef,
+			Gen: func(r *fw.Rand, uniq int) reflect.Value {
+				p := reflect.New(base.Type)
+				p.Elem().Set(base.Gen(r, uniq))
+				return p
+			},
+			Text: func(v reflect.Value) string { return base.Text(v.Elem()) }}
+	}
+	return []*gen.Leaf{
+		mk("*[]string", gen.LeafByName("[]string")), mk("*[]int", gen.LeafByName("[]int")),
+		mk("*map[string]string", gen.LeafByName("map[string]string")), mk("*Names", gen.LeafByName("Names")), mk("*Labels", gen.LeafByName("Labels")),
+	}
+}()
+
+// The usual named-leaf pool, with about one leaf in three one of the extra pointer kinds.
+func c16PoolWith(extra []*gen.Leaf) []*gen.Leaf {
+	out := namedLeaves()
+	n := len(out)
+	for len(out) < n*3/2 {
+		out = append(out, extra...)
+	}
+	return out
+}
+
+var c16ExtraPools = map[string][]*gen.Leaf{"ptr-to-ptr": c16PoolWith(c16PtrPtrLeaves), "ptr-to-collection": c16PoolWith(c16PtrCollLeaves)}
+
+var c16ExtraLeaf = func() map[*gen.Leaf]bool {
+	m := map[*gen.Leaf]bool{}
+	for _, l := range append(append([]*gen.Leaf{}, c16PtrPtrLeaves...), c16PtrCollLeaves...) {
+		m[l] = true
+	}
+	return m
+}()
+
+// Findings of these episodes on the pinned tree:
+//   - flag and pflag register a flag for a pointer-to-pointer field and panic in (*Set).Value when it is given
+//     (--retries=3 for Retries **int: reflect.Value.OverflowInt on ptr Value / Convert: int cannot be converted to **int):
+//     open, listed in known_findings.json under the key "panic:types:flag-sources+ptr-to-ptr-leaves:(*Set).Value";
+//   - the env source panicked for a top-level pointer to a slice or map whose variable is set (TAGS=a,b for Tags *[]string):
+//     repaired by /repo commit d738c86.
+//
+// The switches take episodes out of the run (all on: nothing is taken out).
+const (
+	c16PtrPtrThroughFlagSources  = true
+	c16PtrToCollectionEpisodes   = true
+	c16PtrToCollectionThroughEnv = true
+)
+
 // c16Types: every leaf a user-defined named type; well-formed inputs through every family; only crashes and result types are judged.
-func c16Types(w *fw.Worker, i int, r *fw.Rand, cw *c16Watch) {
+// mode "" is the plain population; "ptr-to-ptr" adds the pointer-to-pointer leaves, "ptr-to-collection" the pointers to slices and maps.
+func c16Types(w *fw.Worker, i int, r *fw.Rand, cw *c16Watch, mode string) {
 	o := gen.GenOpts{MaxDepth: 3 - r.Intn(2), MaxFields: r.Range(2, 6), StructPct: r.Range(10, 45), TagPct: r.Range(0, 60), SkipPct: r.Range(0, 20), Leaves: namedLeaves(), InitialismPct: 15, TagStyles: []string{"snake"}}
 	fam := []string{"env", "flag", "pflag", "json", "yaml", "toml", "cue", "chains"}[r.Intn(8)]
+	modeTag := ""
+	if mode != "" {
+		modeTag = "+" + mode + "-leaves"
+		o.Leaves = c16ExtraPools[mode]
+		if r.Chance(40) {
+			fam = "env" // the string-casting chain is where text meets the declared pointer depth
+		}
+		if mode == "ptr-to-ptr" && !c16PtrPtrThroughFlagSources && (fam == "flag" || fam == "pflag") {
+			fam = "chains"
+		}
+		if mode == "ptr-to-collection" && !c16PtrToCollectionThroughEnv && fam == "env" {
+			fam = "chains"
+		}
+	}
 	isFile := fam == "json" || fam == "yaml" || fam == "toml" || fam == "cue"
 	if isFile {
 		// keys come from dials tags; an embedded field's own key (its lower-cased name) could collide with a tag, so no embedding here
@@ -506,8 +624,8 @@ func c16Types(w *fw.Worker, i int, r *fw.Rand, cw *c16Watch) {
 	c := &gen.Counter{}
 	zero := reflect.New(spec.Type())
 	ptrType := ptrify.Pointerify(spec.Type(), zero.Elem())
-	desc := map[string]any{"part": "types", "family": fam, "type": spec.Describe()}
-	cw.current.Store("types:" + fam)
+	desc := map[string]any{"part": "types" + modeTag, "family": fam, "type": spec.Describe()}
+	cw.current.Store("types:" + fam + modeTag)
 	w.BeginDesc(i, fmt.Sprintf("%v", desc))
 	var got reflect.Value
 	var err error
@@ -515,18 +633,44 @@ func c16Types(w *fw.Worker, i int, r *fw.Rand, cw *c16Watch) {
 		defer func() {
 			if p := recover(); p != nil {
 				st := string(debug.Stack())
-				w.Violation(i, "panic:types:"+fam+":"+fw.TopDialsFrame(st), fmt.Sprintf("panic: %v", p), map[string]any{"case": desc, "stack": fw.TrimStack(st)})
+				top := fw.TopDialsFrame(st)
+				key := "panic:types:" + fam + modeTag + ":" + top
+				if mode == "ptr-to-ptr" && (fam == "flag" || fam == "pflag") && (strings.Contains(top, "sources/flag.") || strings.Contains(top, "sources/pflag.")) {
+					// one defect, one key: the flag sources' (*Set).Value (its visitor closure and willOverflow)
+					// assumes a single pointer level when a flag was given for a pointer-to-pointer field
+					key = "panic:types:flag-sources+ptr-to-ptr-leaves:(*Set).Value"
+				}
+				w.Violation(i, key, fmt.Sprintf("panic: %v", p), map[string]any{"case": desc, "stack": fw.TrimStack(st)})
 				err = fmt.Errorf("panicked")
 			}
 		}()
 		switch {
 		case fam == "env":
 			os.Clearenv()
+			envSet := map[string]string{}
+			setPct := 60
+			if mode != "" {
+				// few variables at a time: the first field that cannot be converted ends the call with an error
+				setPct = r.Range(10, 60)
+			}
 			for _, lr := range leaves {
 				lf := lr.Leaf().Leaf
-				if lf.Text != nil && r.Chance(60) {
-					os.Setenv(envName("TY", lr), lf.Text(lf.Gen(r, c.Next())))
+				if lf.Text != nil && r.Chance(setPct) {
+					text := lf.Text(lf.Gen(r, c.Next()))
+					os.Setenv(envName("TY", lr), text)
+					if mode != "" {
+						envSet[envName("TY", lr)] = text
+						if c16ExtraLeaf[lf] {
+							w.Count("env_values_for_"+mode+"_leaves", 1)
+							if len(lr.Path) == 1 {
+								w.Count("env_values_for_top_level_"+mode+"_leaves", 1)
+							}
+						}
+					}
 				}
+			}
+			if mode != "" {
+				desc["environment"] = envSet
 			}
 			got, err = (&env.Source{Prefix: "TY"}).Value(context.Background(), dials.NewType(ptrType))
 		case fam == "flag" || fam == "pflag":
@@ -613,10 +757,13 @@ func c16Types(w *fw.Worker, i int, r *fw.Rand, cw *c16Watch) {
 		}
 	}()
 	w.Count("type_cases_returned", 1)
+	if mode != "" {
+		w.Count("type_cases_returned:"+mode+":"+fam, 1)
+	}
 	if err == nil {
 		w.Count("success_results_type_checked", 1)
 		if !got.IsValid() || (got.Type() != ptrType && !(got.Kind() == reflect.Ptr && got.Type().Elem() == ptrType)) {
-			w.Violation(i, "result-not-of-requested-type:types:"+fam, fmt.Sprintf("got %v", got), desc)
+			w.Violation(i, "result-not-of-requested-type:types:"+fam+modeTag, fmt.Sprintf("got %v", got), desc)
 			return
 		}
 		func() {
@@ -627,14 +774,14 @@ func c16Types(w *fw.Worker, i int, r *fw.Rand, cw *c16Watch) {
 				}
 			}()
 			if _, cerr := dials.VerifCompose(reflect.New(spec.Type()).Interface(), []reflect.Value{got}); cerr != nil {
-				w.Violation(i, "result-not-accepted-by-compose:types:"+fam, cerr.Error(), desc)
+				w.Violation(i, "result-not-accepted-by-compose:types:"+fam+modeTag, cerr.Error(), desc)
 			}
 		}()
 	} else {
 		w.Count("type_cases_error_returned:"+fam, 1)
 	}
-	w.Distinct("types|" + fam + spec.Signature())
-	if i%997 == 6 {
+	w.Distinct("types|" + fam + modeTag + spec.Signature())
+	if i%997 == 6 && mode == "" {
 		w.Sample(desc)
 	}
 }
